@@ -7,13 +7,13 @@ import (
 
 // EngineGenOpts selects which features a generated engine scenario uses.
 type EngineGenOpts struct {
-	Restarts bool // close/open with an independently drawn configuration
-	Batches  bool
-	Merges   bool
-	Backups  bool
-	BigVals  bool // values around / above a block and above DataFileSize
-	Ops      int  // approximate number of operations
-	FixedIO  int  // -1: draw, else force this FileIOType
+	Restarts      bool // close/open with an independently drawn configuration
+	Batches       bool
+	Merges        bool
+	Backups       bool
+	BigVals       bool // values around / above a block and above DataFileSize
+	Ops           int  // approximate number of operations
+	FixedIO       int  // -1: draw, else force this FileIOType
 	HostileCaller bool
 	Collide       bool // some scenarios stage keys whose XXH64 hashes collide
 	HostileSome   bool // a third of the scenarios are run by the hostile caller (buffers reused and overwritten after every call)
@@ -111,7 +111,13 @@ func GenEngineScript(r *Rng, o EngineGenOpts, hist map[string]int) []string {
 	if steer {
 		c.fsize = 1 << 20
 	}
-	add("dir db")
+	src := "db"
+	if o.Backups && r.Chance(1, 6) {
+		// a data directory whose name contains characters that are special in shell patterns
+		src = r.PickS("db[1]", "d*b", "db?", "db]x[", "{db}")
+		hist["source_dir_name_with_pattern_characters"]++
+	}
+	add("dir %s", src)
 	if o.MergeHeavy && r.Chance(1, 4) {
 		// the same directory spelled with and without a trailing separator across restarts
 		add("pathstyle %d", r.Pick(1, 2, 2))
@@ -130,6 +136,24 @@ func GenEngineScript(r *Rng, o EngineGenOpts, hist map[string]int) []string {
 		// records that end within 8 bytes of a block boundary (the file offset is known: the
 		// database is fresh and the file limit is far away)
 		st := &fileState{}
+		if r.Chance(1, 3) {
+			// two versions of one key, of one length, at the SAME in-block offset of consecutive blocks of one file
+			// (a filler record ends exactly on the block boundary): positions that differ in the block id only
+			key := engKeys[r.Intn(3)]
+			klen := len(key) / 2
+			vl := 1 + r.Intn(50)
+			e1 := encLen(klen, vl, 0)
+			if fill := valueLenForEnd(e1+7, 2, 0, 0, bs); fill > 0 {
+				add("put %s @%d:%d", key, vl, r.Intn(99999))
+				st.advance(e1)
+				add("put 7a7a @%d:%d", fill, r.Intn(99999))
+				st.advance(encLen(2, fill, 0))
+				add("put %s @%d:%d", key, vl, r.Intn(99999))
+				st.advance(e1)
+				add("pos %s", key)
+				hist["steered_same_offset_in_next_block"]++
+			}
+		}
 		ns := 1 + r.Intn(3)
 		for i := 0; i < ns; i++ {
 			key := engKeys[r.Intn(3)]
@@ -299,7 +323,13 @@ func GenEngineScript(r *Rng, o EngineGenOpts, hist map[string]int) []string {
 			if r.Chance(1, 6) {
 				nb = 10 + r.Intn(30)
 			}
+			stray := r.Chance(1, 4)
 			for j := 0; j < nb; j++ {
+				if stray && r.Chance(1, 3) {
+					// a stray call through the handle of the previous, committed batch
+					add("bold %s %s %s", r.PickS("p", "p", "d", "g", "c"), engKeys[r.Intn(len(engKeys))], genEngVal(r, o, c, hist))
+					hist["op_stray_call_through_committed_batch_handle"]++
+				}
 				y := r.Intn(10)
 				switch {
 				case y < 5:
@@ -342,14 +372,20 @@ func GenEngineScript(r *Rng, o EngineGenOpts, hist map[string]int) []string {
 			}
 			backupN++
 			name := fmt.Sprintf("bk%d", backupN)
-			if !prefixNameDone && r.Chance(1, 5) {
+			if src == "db" && !prefixNameDone && r.Chance(1, 5) {
 				// the backup directory's name is a proper prefix of the data directory's name ("d" / "db")
 				prefixNameDone = true
 				name = "d"
 				hist["backup_dir_name_prefix_of_source"]++
 			}
 			backups = append(backups, name)
-			add("backup %s", name)
+			if r.Chance(1, 4) {
+				// another client reads while the backup runs
+				add("backupget %s", name)
+				hist["op_backup_with_reads"]++
+			} else {
+				add("backup %s", name)
+			}
 			hist["op_backup"]++
 			if c.io == 1 && r.Chance(1, 2) {
 				// a large first write after a memory-mapped backup
@@ -395,10 +431,23 @@ func GenEngineScript(r *Rng, o EngineGenOpts, hist map[string]int) []string {
 	}
 	if len(backups) > 0 && o.Restarts {
 		// the source must be unaffected by its backups
-		add("dir db")
+		add("dir %s", src)
 		add("open %s", genCfg(r, o, hist))
 		inspect()
 		add("close")
+	}
+	if o.MergeHeavy && r.Chance(1, 3) {
+		// the database is closed while a Merge is in the middle of its scan
+		cm := genCfg(r, o, hist)
+		cm.io = 0
+		add("dir %s", src)
+		add("open %s", cm)
+		for i := 2 + r.Intn(10); i > 0; i-- {
+			add("put %s %s", genEngKey(r, hist), genEngVal(r, o, cm, hist))
+		}
+		add("del %s", engKeys[r.Intn(len(engKeys))])
+		add("mergeclose %d", r.Pick(0, 1, 2, 5, 20))
+		hist["close_during_merge_scan"]++
 	}
 	return out
 }
@@ -486,7 +535,11 @@ func GenCrashScript(r *Rng, kind string, hist map[string]int) []string {
 		x := r.Intn(10)
 		switch {
 		case x < 6:
-			if r.Chance(1, 5) {
+			if r.Chance(1, 14) {
+				// a record of several chunks (a cut may fall behind its first complete chunks)
+				add("put %s @%d:%d", engKeys[r.Intn(5)], bs+r.Intn(2*bs), r.Intn(99999))
+				hist["crash_val_multi_block"]++
+			} else if r.Chance(1, 5) {
 				// a record whose encoding ends in zero bytes (the tail of a file is told from padding by
 				// the chunk headers, never by the byte values)
 				add("put %s %s", engKeys[r.Intn(5)], r.PickS("00", "07000000", "ab0000", "610000000000000000", "0000"))
